@@ -67,6 +67,13 @@ def forms(t, ns, r, ew, drop_ns=False, drop_ew=False):
         'dashed': (f"T-{t}" + ('' if drop_ns else f"-{ns.upper()}")
                    + f"-R-{r}" + ('' if drop_ew else f"-{ew.upper()}")),
     }
+    if not drop_ns:
+        # township without its 'T', range with its 'R' (with or without the
+        # E/W), also in lower case
+        f['not-r'] = f"{t}{ns.upper()}-R{r}{e_}"
+        f['not-r-lower'] = f"{t}{ns}-r{r}{e_.lower()}"
+        f['not-words-lower'] = (f"{t} {_NS[ns].lower()}, range {r}"
+                                + E_.lower())
     if not drop_ns and not drop_ew:
         f['lower'] = f"t{t}{ns}r{r}{ew}"
         if r != 2:
@@ -296,7 +303,10 @@ def check_ocr(rng, ctx, rep, pytrs):
                               f"expected {[f'{t}{ns}{r}{ew}']} (pp "
                               f"{short(d.pp_desc, 60)!r})", dedup='nodigit')
         return
-    if rng.random() < 0.7:
+    if rng.random() < 0.2:
+        # compact, nothing between township and range
+        txt = f"T{ts}{ns.upper()}R{rs}{ew.upper()} Sec 14: NE/4"
+    elif rng.random() < 0.7:
         txt = f"T{ts}{ns.upper()}-R{rs}{ew.upper()} Sec 14: NE/4"
     else:
         txt = (f"Township {ts} {'North' if ns == 'n' else 'South'}, Range {rs} "
